@@ -190,7 +190,7 @@ def c03_jobs(tier):
     windows = [16] if tier != "thorough" else [16, 64, 256]
     for variant in ("prod_ndebug", "tsan_ndebug"):
         for w in windows:
-            common = dict(weak=True, window=w, variant=variant, step_cap=60000)
+            common = dict(weak=True, window=w, variant=variant, step_cap=60000, time_s=scale(tier, 45, 3600))
             for h in ("rclient0", "rclient1", "rclient2", "qhist0", "qhist1", "qhist2", "qhist3", "qhist4", "mhist0", "mhist1", "vhist0", "vhist1", "vhist2",
                       "dhist", "lrhist", "slhist"):
                 t = tag
